@@ -496,6 +496,14 @@ class SSETransport(Transport):
                             }
                             await self._route_incoming_message(error_response)
                         except asyncio.CancelledError:
+                            # Only a cancelled *request* (its future) ends here; when this
+                            # task itself is being cancelled (transport shutdown) the
+                            # cancellation must propagate or _cleanup waits forever
+                            current = asyncio.current_task()
+                            if not future.cancelled() or (
+                                current is not None and current.cancelling()
+                            ):
+                                raise
                             logger.debug(f"Request {message_id} was cancelled")
                     else:
                         # Unexpected status
